@@ -57,9 +57,14 @@ Fixpoint jeqb (a b : J) : bool :=
 Definition dec_metric (j : J) : option (name * metric) :=
   match j with
   | JL [JI n; JI k; JI v] =>
+      (* kinds of c16.rs make_metric: 0 counter, 5 counter at a boundary (0 / u64::MAX), 1 gauge or
+         custom metric, 2 gauge with an awkward float, 3 histogram, 4 custom metric with awkward
+         JSON: everything but a counter is an opaque `Other` *)
       if v <? 0 then None
       else if k =? 0 then Some (n, Counter (Z.to_N v))
-      else if k =? 1 then Some (n, Other v) else None
+      else if k =? 5 then Some (n, Counter (if v =? 0 then 0%N else (U64_MOD - 1)%N))
+      else if k =? 1 then Some (n, Other v)
+      else if (2 <=? k) && (k <=? 4) then Some (n, Other (k * 1000 + v)) else None
   | _ => None
   end.
 Definition dec_metrics (j : J) : option (list (name * metric)) :=
@@ -381,16 +386,21 @@ Definition judge_transparent (regs : list (name * metric)) (errs : list Z) (pois
           let '(want, mf) := model_runs 0 errs wos m0 in
           let names := map fst regs in
           match rest with
-          | JL [JS t; JB el; jkeys; JB got; JB taken; JB gone] =>
+          | JL [JS t; JB el; jkeys; JB got; JB taken; JB gone; JB elpos] =>
               match jints jkeys with
               | Some keys =>
+                  let last_ok := match rev ws with w :: _ => is_ok w | [] => false end in
                   let agree :=
                     outcomes_eqb ws want && negb (ms_poisoned mf) &&
                     Bool.eqb el (match elapsed mf with Some _ => true | None => false end) &&
+                    (* the clock ticks between the two stamps of one run: elapsed is positive
+                       exactly when the end stamp is later than the start stamp *)
+                    Bool.eqb elpos (match elapsed mf with Some d => 0 <? d | None => false end) &&
                     zlist_eqb keys (zsort (json_keys mf)) && got && taken && gone in
                   let prop :=
                     outcomes_eqb ws wos &&
                     (if existsb is_ok ws then el else true) &&
+                    (if last_ok then el && elpos else true) &&
                     (if el then zmem exec_time_name keys else true) &&
                     forallb (fun n => zmem n keys) names && got && taken && gone in
                   Some (agree, prop)
@@ -461,14 +471,57 @@ Definition check_C16 (kind : string) (input output : J) : verdict :=
     end
   else if String.eqb kind "transparent" then
     match input, output with
-    | JL [JI _; JI _; JL _; JI _; jregs; jerrs; JI poisoned], JL [JS _; jwith; jwithout; rest] =>
-        match dec_metrics jregs, jints jerrs with
-        | Some regs, Some errs =>
-            match judge_transparent regs errs (negb (poisoned =? 0)) jwith jwithout rest with
-            | Some (a, p) => V a p (negb (poisoned =? 0)) false
-            | None => malformed
+    (* the 8th component is the Runner configuration (checkpoint_config None / disabled / enabled
+       with each policy, collect_seq/collect_par helpers): the model's run_collect is abstract in
+       the engine, so its prediction is the same for every configuration *)
+    | JL (JI _ :: JI _ :: JL _ :: JI _ :: jregs :: jerrs :: JI poisoned :: cfg),
+      JL [JS _; jwith; jwithout; rest] =>
+        match cfg with
+        | [] | [JI _] =>
+            match dec_metrics jregs, jints jerrs with
+            | Some regs, Some errs =>
+                match judge_transparent regs errs (negb (poisoned =? 0)) jwith jwithout rest with
+                | Some (a, p) => V a p (negb (poisoned =? 0)) false
+                | None => malformed
+                end
+            | _, _ => malformed
             end
-        | _, _ => malformed
+        | _ => malformed
+        end
+    | _, _ => malformed
+    end
+  else if String.eqb kind "export" then
+    (* in = [metrics, stamps, via_all]; out = [ok, snapshot keys, to_json keys, every entry has a
+       "value" field, keys of the file written by save_to_file, counters] *)
+    match input, output with
+    | JL [jms; JI stamps; JI via_all],
+      JL [JS _; jsnap; jjson; JB shaped; jfile; JL jcounters] =>
+        match dec_metrics jms, jints jsnap, jints jjson, omap jints jcounters with
+        | Some ms, Some ksnap, Some kjson, Some counters =>
+            let regs := if via_all =? 0 then map (fun p => Reg (fst p) (snd p)) ms else [RegAll ms] in
+            let final := run_calls (regs ++ (if stamps =? 0 then [] else [RecStart 0; RecEnd 1]))
+                                   empty_state in
+            let want_counters :=
+              flat_map (fun p => match snd p with
+                                 | Counter c => [[fst p; Z.of_N c]]
+                                 | Other _ => [] end) (ssort (ms_metrics final)) in
+            let kfile := match jints jfile with Some l => l | None => [-98] end in
+            let names := map fst ms in
+            let agree :=
+              zlist_eqb ksnap (zsort (map fst (ms_metrics final))) &&
+              zlist_eqb kjson (zsort (json_keys final)) &&
+              zlist_eqb kfile (zsort (json_keys final)) && shaped &&
+              (fix leq (a b : list (list Z)) : bool :=
+                 match a, b with
+                 | [], [] => true
+                 | x :: a', y :: b' => zlist_eqb x y && leq a' b'
+                 | _, _ => false
+                 end) counters want_counters in
+            let prop :=
+              forallb (fun n => zmem n ksnap && zmem n kjson && zmem n kfile) names && shaped &&
+              (if stamps =? 0 then true else zmem exec_time_name kjson && zmem exec_time_name kfile) in
+            ok_verdict agree prop
+        | _, _, _, _ => malformed
         end
     | _, _ => malformed
     end
